@@ -28,7 +28,7 @@ func runCaseC10(kind string, spec json.RawMessage) (vx.Out, bool) {
 
 func checkC10(tier string) int {
 	rep := vx.NewReport("C10", tier, "exploration")
-	rep.Rule = "E5: (1) every route (registered and unknown) x method {GET,POST,PUT,DELETE,HEAD} x topic-argument class x channel-argument class (absent, empty, existing, new, invalid characters, 65 characters, bad percent-escape, given twice) x body class, against a status/effect model on a fixed pre-state; (2) differential: every text /mpub body over {a,b,newline} up to length N, binary /mpub count/length grid, /pub sizes around max-msg-size declared and chunked, defer spellings - HTTP on one fresh daemon vs the equivalent TCP command on another, comparing what was enqueued. distinct = distinct (status, effect) and differential outcomes"
+	rep.Rule = "E5: (1) every route (registered and unknown) x method {GET,POST,PUT,DELETE,HEAD} x topic-argument class x channel-argument class (absent, empty, existing, new, invalid characters, 65 characters, bad percent-escape, given twice) x body class, plus unknown extra parameters whose text resembles a route or an action, against a status/effect model on a fixed pre-state (and, for the admin routes, on the same state with topic and channel paused); (2) differential: every text /mpub body over {a,b,newline} up to length N, binary /mpub count/length grid, /pub sizes around max-msg-size declared and chunked, defer spellings - HTTP on one fresh daemon vs the equivalent TCP command on another, comparing what was enqueued. distinct = distinct (status, effect) and differential outcomes"
 	rep.Assumptions = []string{"requests are handed to the real httpServer.ServeHTTP (router, decorators, handlers); net/http's own wire parsing is not exercised", "where the documentation does not order the checks of one request (several faults at once) any of the applicable statuses is accepted"}
 	var jobs []caseJob
 	paths := []string{"/ping", "/info", "/pub", "/mpub", "/stats", "/topic/create", "/topic/delete", "/topic/empty", "/topic/pause", "/topic/unpause",
@@ -65,6 +65,24 @@ func checkC10(tier string) int {
 	}
 	for _, f := range []string{"format=json", "format=text", "format=xml", "include_clients=true", "include_clients=false&format=json", "topic=t&channel=c&format=json"} {
 		jobs = append(jobs, caseJob{"http", mustJSON(nsqd.HTTPCase{Method: "GET", Path: "/stats", Query: f})})
+	}
+	// parameters the handlers do not know must change nothing - in particular not when their
+	// text resembles a route or an action; and pause/unpause from the paused pre-state too
+	for _, p := range paths {
+		if !strings.HasPrefix(p, "/topic/") && !strings.HasPrefix(p, "/channel/") {
+			continue
+		}
+		q := "topic=t"
+		if strings.HasPrefix(p, "/channel/") {
+			q += "&channel=c"
+		}
+		for _, extra := range []string{"reason=unpause", "reason=pause_later", "note=delete", "note=empty", "do=create", "unpause", "unpause=1&pause=0", "channel_name=k", "topic_name=u"} {
+			for _, paused := range []bool{false, true} {
+				jobs = append(jobs, caseJob{"http", mustJSON(nsqd.HTTPCase{Method: "POST", Path: p, Query: q + "&" + extra, Paused: paused})})
+				jobs = append(jobs, caseJob{"http", mustJSON(nsqd.HTTPCase{Method: "POST", Path: p, Query: extra + "&" + q, Paused: paused})})
+			}
+		}
+		jobs = append(jobs, caseJob{"http", mustJSON(nsqd.HTTPCase{Method: "POST", Path: p, Query: q, Paused: true})})
 	}
 	nProduct := len(jobs)
 	// differential
